@@ -462,6 +462,16 @@ inductive CardsArg where
   | cards (l : List Card)
 deriving Repr, DecidableEq, Inhabited
 
+/-- the loop of `_verify_cards_consumption`: every known card of the request is taken out of the pool
+    of dealable cards — a card that is not there (foreign, in play, or named once more than the pool
+    holds it) draws the warning.  `none`: a warning; `some pool'`: what is left of the pool -/
+def coverKnown (pool : List Card) : List Card → Option (List Card)
+  | [] => some pool
+  | c :: cs =>
+    if !c.known then coverKnown pool cs
+    else if pool.contains c then coverKnown (pool.erase c) cs
+    else none
+
 /-- `_verify_cards_consumption(cards)` (2407-2433) -/
 def verifyCardsConsumption (s : State) : CardsArg → Except Err (Verdict (List Card))
   | .none => .error .typeError
@@ -471,7 +481,7 @@ def verifyCardsConsumption (s : State) : CardsArg → Except Err (Verdict (List 
     else .ok ⟨pyTake dealable k, false⟩
   | .cards cs =>
     let dealable := s.dealableCards env (some cs.length)
-    if cs.any (fun c => !dealable.contains c && c.known) then warnOr cfg cs
+    if (coverKnown dealable cs).isNone then warnOr cfg cs
     else .ok ⟨cs, false⟩
 
 /-- `_produce_cards(cards)` (2402-2405): `deque.extend` consumes the lazy filter one
